@@ -515,3 +515,217 @@ func c02DuplicateNodeIDProbe(c *Ctx) {
 			firstRank, deps[firstRank].MinerAddress.String(), dupRank, deps[dupRank].MinerAddress.String(), mine.String(), own),
 		map[string]interface{}{"witness": "h2: founder -> X 9,000,000 LEMO; h3: X registers as candidate with nodeID = node id of genesis deputy D0, deposit 8,000,000; term 1 (height 17) lists X and D0 with the same node id"})
 }
+
+// ---------------------------------------------------------------------------------------------
+// independent ancestor walk (replaces the guard's answer as the model's `anc` input)
+// ---------------------------------------------------------------------------------------------
+
+type c02BlockInfo struct {
+	parent common.Hash
+	time   uint32
+	height uint32
+	txs    map[common.Hash]bool // tx hashes and box sub-tx hashes
+}
+
+func c02TxHashes(txs types.Transactions) []common.Hash {
+	var out []common.Hash
+	for _, tx := range txs {
+		out = append(out, tx.Hash())
+		if tx.Type() == params.BoxTx {
+			if box, err := types.GetBox(tx.Data()); err == nil {
+				for _, sub := range box.SubTxList {
+					if sub != nil {
+						out = append(out, sub.Hash())
+					}
+				}
+			}
+		}
+	}
+	return out
+}
+
+func (s *c02State) info(h common.Hash) *c02BlockInfo {
+	if s.binfo == nil {
+		s.binfo = map[common.Hash]*c02BlockInfo{}
+	}
+	if bi, ok := s.binfo[h]; ok {
+		return bi
+	}
+	b, err := s.n.DB.GetBlockByHash(h)
+	if err != nil {
+		return nil
+	}
+	bi := &c02BlockInfo{parent: b.ParentHash(), time: b.Time(), height: b.Height(), txs: map[common.Hash]bool{}}
+	for _, x := range c02TxHashes(b.Txs) {
+		bi.txs[x] = true
+	}
+	s.binfo[h] = bi
+	return bi
+}
+
+// ancOwn: does a tx (or box sub-tx) of b sit in b's parent or in one of its ancestors that is at most 1800 s older
+// than b (an older one can only hold transactions that are expired at b's time)? Walks the parent links of the STORE.
+func (s *c02State) ancOwn(b *types.Block) (bool, common.Hash) {
+	mine := c02TxHashes(b.Txs)
+	if len(mine) == 0 {
+		return false, common.Hash{}
+	}
+	cur := b.ParentHash()
+	for steps := 0; steps < 5000; steps++ {
+		bi := s.info(cur)
+		if bi == nil || uint64(bi.time)+1800 < uint64(b.Time()) {
+			break
+		}
+		for _, x := range mine {
+			if bi.txs[x] {
+				return true, x
+			}
+		}
+		if bi.height == 0 {
+			break
+		}
+		cur = bi.parent
+	}
+	return false, common.Hash{}
+}
+
+// ---------------------------------------------------------------------------------------------
+// (H) restart family: tx blocks and EMPTY blocks interleaved, all stable; the node is stopped and reopened on
+// the same database (the TxGuard is rebuilt by initTxPool); then the usual block classes against the restarted
+// node, in particular replays of an ancestor's transaction with 0..3 empty blocks between that ancestor and the
+// stable head, and replays of a transaction from an unstable ancestor added after the restart.
+// ---------------------------------------------------------------------------------------------
+
+func c02RestartFamily(c *Ctx) {
+	oldT, oldI := params.TermDuration, params.InterimDuration
+	params.TermDuration, params.InterimDuration = 1000000, 1000
+	defer func() { params.TermDuration, params.InterimDuration = oldT, oldI }()
+	s := c02NewState(c, 3)
+	defer func() { Safe(func() string { s.n.Close(); return "" }) }()
+	n, w := s.n, s.w
+	c.Op(fmt.Sprintf("params %d %d %d", params.TermDuration, params.InterimDuration, w.Timeout), "ok")
+	observer := detKey("c02-observer")
+	muts := c02Muts()
+	parent := n.BC.CurrentBlock()
+	t := parent.Time() + 1
+	// stable: an honest block with the confirms of all other deputies, inserted directly
+	stable := func(txs types.Transactions) *types.Block {
+		blk, _, err := n.Build(parent, t, txs, nil)
+		if err != nil {
+			c.Fail("c02/harness/build", "restart family: "+err.Error(), nil)
+			return nil
+		}
+		for _, k := range w.DeputyKeys {
+			if keyAddr(k) != blk.MinerAddress() {
+				blk.Confirms = append(blk.Confirms, Confirm(blk, k))
+			}
+		}
+		deputynode.SetSelfNodeKey(observer)
+		if v, _ := c02InsertVerdict(n, blk); v != "ok" {
+			c.Fail("c02/harness/build", "restart family: setup block not accepted: "+v, nil)
+			return nil
+		}
+		s.honestGL[blk.ParentHash()] = blk.GasLimit()
+		s.honestDR[blk.ParentHash()] = fmt.Sprintf("%x", blk.DeputyRoot())
+		parent = blk
+		t += 5 + uint32(c.Rnd.Intn(10))
+		return blk
+	}
+	mkTx := func(tag string) *types.Transaction {
+		s.txSeq++
+		return txTransfer(w.FounderKey, keyAddr(s.users[s.txSeq%3]), lemo(int64(100+s.txSeq)), TxOpt{Exp: uint64(t) + 1500, Msg: fmt.Sprintf("rs-%s-%d", tag, s.txSeq)})
+	}
+	offer := func(label string, txs types.Transactions, key *ecdsa.PrivateKey) string {
+		blk, _, err := n.Build(parent, t, txs, key)
+		if err != nil {
+			c.Count("restart:cannot-build")
+			return ""
+		}
+		s.honestGL[blk.ParentHash()] = blk.GasLimit()
+		s.honestDR[blk.ParentHash()] = fmt.Sprintf("%x", blk.DeputyRoot())
+		if len(blk.Txs) != len(txs) {
+			c.Count("restart:miner-dropped:" + strings.SplitN(label, " ", 2)[0])
+			return ""
+		}
+		deputynode.SetSelfNodeKey(observer)
+		c.Count("restart:" + strings.ReplaceAll(strings.SplitN(label, " [", 2)[0], " ", ":"))
+		return s.runCase(blk, "restart:"+label, false, txs)
+	}
+	rounds := 8
+	if c.Tier == "thorough" {
+		rounds = 40
+	}
+	for r := 0; r < rounds; r++ {
+		e := r % 4 // empty blocks between the tx block and the stable head
+		older := mkTx("older")
+		if stable(types.Transactions{older}) == nil {
+			return
+		}
+		olderHeight := parent.Height()
+		for i := 0; i < c.Rnd.Intn(2); i++ { // sometimes another tx block or empty block in front
+			if stable(nil) == nil {
+				return
+			}
+		}
+		T := mkTx("T")
+		if stable(types.Transactions{T, mkTx("fill")}) == nil {
+			return
+		}
+		txHeight := parent.Height()
+		for i := 0; i < e; i++ {
+			if stable(nil) == nil {
+				return
+			}
+		}
+		stableHead := parent
+		// control on the RUNNING node
+		offer(fmt.Sprintf("control-replay-before-restart e=%d", e), types.Transactions{T}, nil)
+		n.Reopen()
+		s.binfo = nil
+		c.Count("restart:reopened")
+		if n.BC.CurrentBlock().Hash() != stableHead.Hash() {
+			c.Fail("c02/restart/head", fmt.Sprintf("after the restart the head is %s, not the stable head %s", n.BC.CurrentBlock().ShortString(), stableHead.ShortString()), nil)
+			return
+		}
+		parent = stableHead
+		c.Count(fmt.Sprintf("restart:sequence:tx-block,%d-empty,stable-head,restart", e))
+		seq := fmt.Sprintf(" [sequence: older tx in stable block %d, tx T in stable block %d, %d empty stable blocks, stable head %d, node closed and reopened on the same database, replay block at height %d]", olderHeight, txHeight, e, stableHead.Height(), stableHead.Height()+1)
+		// the replays
+		offer(fmt.Sprintf("replay-of-ancestor-tx e=%d", e)+seq, types.Transactions{T}, nil)
+		offer(fmt.Sprintf("replay-of-ancestor-tx-among-fresh e=%d", e)+seq, types.Transactions{mkTx("fresh"), T}, nil)
+		offer(fmt.Sprintf("replay-of-older-ancestor-tx e=%d", e)+seq, types.Transactions{older}, nil)
+		offer(fmt.Sprintf("replay-inside-box e=%d", e)+seq, types.Transactions{txBox(w.FounderKey, types.Transactions{T}, TxOpt{Exp: T.Expiration(), Msg: fmt.Sprintf("rs-box-%d", s.txSeq)})}, nil)
+		// a few ordinary mutants of an honest block against the restarted node
+		fresh := mkTx("honest")
+		if hb, _, err := n.Build(parent, t, types.Transactions{fresh}, nil); err == nil {
+			s.honestGL[hb.ParentHash()] = hb.GasLimit()
+			s.honestDR[hb.ParentHash()] = fmt.Sprintf("%x", hb.DeputyRoot())
+			hk := w.KeyOfMiner(hb.MinerAddress())
+			for j := 0; j < 3; j++ {
+				m := CloneBlock(hb)
+				mu := muts[c.Rnd.Intn(len(muts))]
+				if !mu.apply(s, m, hb) {
+					continue
+				}
+				variant := c02Signers[c.Rnd.Intn(len(c02Signers))]
+				if !s.sign(m, variant, hk) {
+					variant = "keep"
+				}
+				deputynode.SetSelfNodeKey(observer)
+				s.runCase(m, "restart:mutant "+mu.name+" signer="+variant, false, hb.Txs)
+			}
+			// the honest block itself, UNSTABLE (no confirms), then a replay of its tx on top of it
+			deputynode.SetSelfNodeKey(observer)
+			if v := s.runCase(hb, "restart:honest-after-restart", true, hb.Txs); v == "ok" {
+				parent = hb
+				t += 7
+				offer(fmt.Sprintf("replay-of-unstable-ancestor-tx e=%d", e), types.Transactions{fresh}, nil)
+				offer(fmt.Sprintf("replay-of-stable-ancestor-tx-over-unstable e=%d", e), types.Transactions{T}, nil)
+				// go on from a stable block again
+				if stable(nil) == nil {
+					return
+				}
+			}
+		}
+	}
+}
